@@ -50,7 +50,7 @@ pub fn exec_id(push_state: &mut PushState, _instruction_set: &InstructionCache) 
 pub fn exec_cmd(push_state: &mut PushState, _instruction_cache: &InstructionCache) {
     if let Some(num_args) = push_state.int_stack.pop() {
         if num_args > -1 {
-            if let Some(mut nvals) = push_state.name_stack.pop_vec((num_args+1) as usize) {
+            if let Some(mut nvals) = push_state.name_stack.pop_vec(num_args as usize + 1) {
                 let cmd = nvals.remove(0);
                 thread::sleep(Duration::from_millis(1000));
                 let mut child = Command::new(cmd).args(nvals).spawn().expect("Command failed to start");
